@@ -35,3 +35,13 @@ package inproc
 //@
 //@ func (*listener).Accept
 //@   before call:Unlock#2 assert called("Broadcast") && !called("Signal")
+
+// ---- round 5b: Dial wires the two ends crosswise ----
+//@ func (*dialer).Dial
+//@   before call:Wait#1 assert len(l.accepters) == 0
+//@   ensures isnil(result1) || result1 == mangos.ErrBadProto || result1 == mangos.ErrConnRefused
+//@   ensures isnil(result1) ==> cast("*inproc", result0).rq == cast("*inproc", result0).peer.wq && cast("*inproc", result0).wq == cast("*inproc", result0).peer.rq
+//@   ensures isnil(result1) ==> cast("*inproc", result0).peer.peer == cast("*inproc", result0) && cast("*inproc", result0).rq != cast("*inproc", result0).wq
+//@   ensures isnil(result1) ==> closed(cast("*inproc", result0).readyq) && closed(cast("*inproc", result0).peer.readyq)
+//@   ensures isnil(result1) ==> cast("*inproc", result0).selfProto == d.selfProto && cast("*inproc", result0).peerProto == d.peerProto
+//@   ensures !isnil(result1) ==> isnil(result0)
